@@ -33,7 +33,7 @@ import (
 
 // Event is one recorded invocation of a duty service.
 type Event struct {
-	Kind       string   // attest | prepare | propose | sync-prepare | sync-message | aggregate | sync-aggregate | subscribe | sync-subscribe
+	Kind       string // attest | prepare | propose | sync-prepare | sync-message | aggregate | sync-aggregate | subscribe | sync-subscribe
 	Slot       uint64
 	Epoch      uint64
 	Validators []uint64
@@ -43,52 +43,52 @@ type Event struct {
 
 // Options configure an environment.
 type Options struct {
-	SlotsPerEpoch   uint64
-	EpochsPerPeriod uint64 // 0: no sync committees
-	AltairForkEpoch uint64
-	StartSlot       uint64
-	Validators      []uint64
+	SlotsPerEpoch    uint64
+	EpochsPerPeriod  uint64 // 0: no sync committees
+	AltairForkEpoch  uint64
+	StartSlot        uint64
+	Validators       []uint64
 	MaxProposalDelay time.Duration
 	WaitedForGenesis bool
 	// Real services (nil: recording fakes).
-	Attester      attester.Service
-	Messenger     synccommitteemessenger.Service
-	SyncAggregator synccommitteeaggregator.Service
-	Subscriber    func(e *Env) beaconcommitteesubscriber.Service
-	Aggregator    attestationaggregator.Service
-	Accounts      map[uint64]harness.Acct // default: plain accounts
+	Attester            attester.Service
+	Messenger           synccommitteemessenger.Service
+	SyncAggregator      synccommitteeaggregator.Service
+	Subscriber          func(e *Env) beaconcommitteesubscriber.Service
+	Aggregator          attestationaggregator.Service
+	Accounts            map[uint64]harness.Acct // default: plain accounts
 	VerifySyncInclusion bool
 }
 
 // Duties is the scripted beacon node's view.
 type Duties struct {
-	mu       sync.Mutex
-	Attester map[uint64][]*apiv1.AttesterDuty      // by requested epoch
-	Proposer map[uint64][]*apiv1.ProposerDuty      // by requested epoch
-	Sync     map[uint64][]*apiv1.SyncCommitteeDuty // by period
-	FailAttester, FailProposer, FailSync bool
-	AttesterCalls, ProposerCalls, SyncCalls []uint64 // requested epochs
-	AttesterOK, ProposerOK, SyncOK []uint64         // epochs of the requests that were answered
-	AttLast, PropLast, SyncLast map[uint64]bool      // epoch -> whether the latest request for it was answered
-	Altair   uint64
-	Period   uint64
-	inflight atomic.Int64
+	mu                                      sync.Mutex
+	Attester                                map[uint64][]*apiv1.AttesterDuty      // by requested epoch
+	Proposer                                map[uint64][]*apiv1.ProposerDuty      // by requested epoch
+	Sync                                    map[uint64][]*apiv1.SyncCommitteeDuty // by period
+	FailAttester, FailProposer, FailSync    bool
+	AttesterCalls, ProposerCalls, SyncCalls []uint64        // requested epochs
+	AttesterOK, ProposerOK, SyncOK          []uint64        // epochs of the requests that were answered
+	AttLast, PropLast, SyncLast             map[uint64]bool // epoch -> whether the latest request for it was answered
+	Altair                                  uint64
+	Period                                  uint64
+	inflight                                atomic.Int64
 }
 
 // Env is a running controller with its surroundings.
 type Env struct {
-	Opts    Options
-	Clock   *harness.VClock
-	Sched   *harness.CapSched
-	Bus     *harness.CapEvents
-	Duties  *Duties
-	Ctl     *controller.Service
-	Accts   map[uint64]harness.Acct
-	mu      sync.Mutex
-	Events  []Event
+	Opts         Options
+	Clock        *harness.VClock
+	Sched        *harness.CapSched
+	Bus          *harness.CapEvents
+	Duties       *Duties
+	Ctl          *controller.Service
+	Accts        map[uint64]harness.Acct
+	mu           sync.Mutex
+	Events       []Event
 	AttestReturn func(d *attester.Duty) []*phase0.Attestation // what the fake attester returns
-	inflight atomic.Int64
-	activity atomic.Int64
+	inflight     atomic.Int64
+	activity     atomic.Int64
 }
 
 const (
@@ -348,8 +348,8 @@ func (f fakeSyncSubscriber) Subscribe(_ context.Context, end phase0.Epoch, _ []*
 
 type misc struct{ e *Env }
 
-func (misc) UpdatePreparations(context.Context) error { return nil }
-func (misc) Refresh(context.Context)                   {}
+func (misc) UpdatePreparations(context.Context) error    { return nil }
+func (misc) Refresh(context.Context)                     {}
 func (misc) SetBlockRootToSlot(phase0.Root, phase0.Slot) {}
 func (m misc) BeaconBlockHeader(context.Context, *api.BeaconBlockHeaderOpts) (*api.Response[*apiv1.BeaconBlockHeader], error) {
 	s := m.e.Clock.CurrentSlot()
